@@ -260,9 +260,20 @@ def run(R):
         run_sequence(R, B, [M.Addr(value=('std', wc, rng.randbytes(32), any_), how=wc % 2), M.Addr(value=None, how=0)], {'sweep': 'addr', 'wc': wc})
         R.cover('workchains', wc)
         R.case(mon.fp('a', wc))
-    for ln in [0, 1, 2, 7, 8, 9, 63, 64, 255, 256, 510, 511]:
-        run_sequence(R, B, [M.Addr(value=('ext', (1 << ln) - 1 if ln else 0, ln), how=0), M.Addr(value=('ext', 0, ln if ln < 200 else 3), how=0)], {'sweep': 'ext', 'len': ln})
+    # external addresses of every length 0..511 (all-ones, all-zero and a random value), anycast prefixes of every depth 1..30
+    for ln in range(512):
+        if ln % R.nshards != R.shard:
+            continue
+        vals = [(1 << ln) - 1 if ln else 0, 0] + ([rng.getrandbits(ln)] if ln else [])
+        for v in vals:
+            run_sequence(R, B, [M.Bit(value=1, how=0), M.Addr(value=('ext', v, ln), how=0), M.UInt(w=3, value=5)], {'sweep': 'ext', 'len': ln})
+        R.cover('ext_lengths', ln)
         R.case(mon.fp('e', ln))
+    for depth in range(1, 31):
+        for pfx in (0, (1 << depth) - 1, rng.getrandbits(depth)):
+            run_sequence(R, B, [M.Addr(value=('std', rng.choice([0, -1, 100]), rng.randbytes(32), (depth, pfx)), how=depth % 2), M.Bit(value=0, how=0)], {'sweep': 'anycast', 'depth': depth})
+        R.cover('anycast_depths', depth)
+        R.case(mon.fp('any', depth))
     # snake bytes at every fill level class
     for fill in ([0, 1, 7, 8, 500, 1015, 1016, 1017, 1023] if quick else range(0, 1024, 1)):
         if fill % R.nshards != R.shard and not quick:
@@ -290,6 +301,8 @@ def run(R):
         R.floor('uint_widths', 256, 'set')
         R.floor('int_widths', 257, 'set')
         R.floor('workchains', 256, 'set')
+        R.floor('ext_lengths', 512, 'set')
+    R.floor('anycast_depths', 30, 'set')
 
 
 def replay(R, w, rec):
